@@ -45,6 +45,7 @@ func runC09(r *engine.Run) {
 	r.Rule("AGREE-mergekey", "when delete fuses shared-prefix nodes the new key is, piece by piece (symbolic evaluation of make+copy, element stores, append chains and literals, with offsets and total length), the parent's whole key followed by the absorbed node's whole key, or the slot number of the only remaining child followed by that child's whole key, or that slot number alone when the child is not a shared-prefix node; key and value of the fused node are rewritten together")
 	r.Rule("AGREE-weightop", "the weight bookkeeping of insert and delete uses the right operator on the right operands: branch weight = own weight + child's change (insert) / own weight - removed weight (delete); a split's new branch weighs Weight(existing) + Weight(payload); an update in place reports Weight(payload) - Weight(existing); a newly built subtree reports Weight(payload)")
 	r.Rule("DOM-reduce", "after a descent below a branch, delete returns the branch itself only where the rebuilt child tested non-nil or the result of the remaining-children scan was tested; the scan records slot i only where Children[i] tested non-nil and nothing had been recorded")
+	r.Rule("FRESH-keybuf", "in the weighted trie a value loaded from a shared-prefix node's key field is never the base of an append and is never passed for a parameter the callee appends onto: neighbouring nodes' keys are slices of one array, so such an append rewrites another node's key")
 	r.NotDec = append(r.NotDec, "the numeric equalities themselves (total weight = sum of live weights, block ownership, root = independent computation)")
 	exhW(r, "EXH-W", []string{"insert", "delete", "getBlockProof", "markToCollect"})
 	depWeight(r)
@@ -79,6 +80,7 @@ func runC09(r *engine.Run) {
 	if n := domSentinel(r, "DOM-sentinel", wf); n < 1 {
 		r.Anchor("DOM-sentinel", fmt.Errorf("unresolved anchor: no single-slot scan with sentinels found in the weighted trie (delete's reduction step is expected to be one)"))
 	}
+	freshKeyBuf(r, "FRESH-keybuf")
 }
 
 func wfn(r *engine.Run, rule, name string) *ssa.Function {
@@ -861,36 +863,36 @@ func agreeUpdate(r *engine.Run, rule string) {
 	byObj := map[ssa.Value]map[string]bool{}
 	var where = map[ssa.Value]ssa.Instruction{}
 	for _, w := range ws {
-	payload := w.value
-	if payload == nil {
-		continue
-	}
-	engine.Instrs(w.f, func(in ssa.Instruction) {
-		st, ok := in.(*ssa.Store)
-		if !ok {
-			return
+		payload := w.value
+		if payload == nil {
+			continue
 		}
-		fa, ok := st.Addr.(*ssa.FieldAddr)
-		if !ok {
-			return
-		}
-		nm := namedOf(fa.X.Type())
-		if nm == nil || nm.Obj().Name() != "valueNode" || dependsOn(fa.X, payload) {
-			return
-		}
-		name := engine.FieldOf(fa).Name()
-		if name != "value" && name != "weight" {
-			return
-		}
-		if !dependsOn(st.Val, payload) {
-			return
-		}
-		if byObj[fa.X] == nil {
-			byObj[fa.X] = map[string]bool{}
-		}
-		byObj[fa.X][name] = true
-		where[fa.X] = st
-	})
+		engine.Instrs(w.f, func(in ssa.Instruction) {
+			st, ok := in.(*ssa.Store)
+			if !ok {
+				return
+			}
+			fa, ok := st.Addr.(*ssa.FieldAddr)
+			if !ok {
+				return
+			}
+			nm := namedOf(fa.X.Type())
+			if nm == nil || nm.Obj().Name() != "valueNode" || dependsOn(fa.X, payload) {
+				return
+			}
+			name := engine.FieldOf(fa).Name()
+			if name != "value" && name != "weight" {
+				return
+			}
+			if !dependsOn(st.Val, payload) {
+				return
+			}
+			if byObj[fa.X] == nil {
+				byObj[fa.X] = map[string]bool{}
+			}
+			byObj[fa.X][name] = true
+			where[fa.X] = st
+		})
 	}
 	n := 0
 	for obj, set := range byObj {
@@ -1033,7 +1035,36 @@ func whoScheduled(r *engine.Run, rule string) {
 						}
 					}
 				}
-				r.Check(good, rule, o.next(fn(f)+"|scheduled hash"), r.P.Pos(st.Pos()), "insert schedules only the shared-prefix node it splits",
+				if good {
+					// ... and only where it is split: the common prefix tested shorter than its key
+					if c, ok := stripConv(e).(*ssa.Call); ok {
+						var recv ssa.Value
+						if c.Call.IsInvoke() {
+							recv = c.Call.Value
+						} else if len(c.Call.Args) == 1 {
+							recv = c.Call.Args[0]
+						}
+						split := false
+						if recv != nil {
+							ps := w.prefixCalls(recv)
+							if facts, okf := engine.FactsOn(f, st.Block()); okf {
+								for _, ft := range facts {
+									if ft.Kind == "eq" && !ft.Truth && (oneOf(ft.A, ps) && isLenOfField(ft.B, recv) || oneOf(ft.B, ps) && isLenOfField(ft.A, recv)) {
+										split = true
+									}
+									if ft.Kind == "lt" && ft.Truth && oneOf(ft.A, ps) && isLenOfField(ft.B, recv) {
+										split = true
+									}
+								}
+							}
+						}
+						if !split {
+							good = false
+							kind = "the shared-prefix node before it is known to be split (the common prefix was not tested shorter than its key)"
+						}
+					}
+				}
+				r.Check(good, rule, o.next(fn(f)+"|scheduled hash"), r.P.Pos(st.Pos()), "insert schedules only the shared-prefix node it splits, where it splits it",
 					"insert schedules "+kind+" for collection: a position that is overwritten may get content that hashes as before (an identical re-put of a collapsed value), so the node the new trie refers to is collected after the next two collection passes; whether an overwritten node's hash dies is commit's decision, under its hash-changed test")
 			}
 		})
